@@ -104,22 +104,21 @@ def lib_valid_terms(d, n, env):
         v = sr.valuation(s)
         return 0 if v is None else v
 
-    def cap(a):
-        return a if a >= INF else min(n, a)
-
-    def invert(v, a):
-        return -v, (a if a >= INF else min(n, a - v) - v)
+    def invert(v, a, monomial=False):
+        # series_invert: shift by x**-v (exact), Newton to n terms, shift back; only c*x**k is inverted exactly
+        if monomial and a >= INF:
+            return -v, INF
+        return -v, min(n, a - v) - v
 
     def mul(va, vb):
+        # Series::mul truncates at n whatever the operands
         (v1, a1), (v2, a2) = va, vb
-        if a1 >= INF and a2 >= INF:
-            return v1 + v2, INF
         return v1 + v2, min(n, a1 + v2, a2 + v1)
 
     def ipow(va, e):
         v, a = va
-        if a >= INF:
-            return v * e, INF
+        if a >= INF and v <= 0:
+            return v * e, INF       # powers of x**-k and of constants stay exact
         return v * e, min(n, a + (e - 1) * v)
 
     def go(dd):
@@ -143,9 +142,10 @@ def lib_valid_terms(d, n, env):
                 vb = go(base)
                 if e > 0:
                     return ipow(vb, e)
+                mono = base[0] == "Symbol"
                 if e == -1:
-                    return invert(*vb)
-                return ipow(invert(*vb), -e)
+                    return invert(vb[0], vb[1], mono)
+                return ipow(invert(vb[0], vb[1], mono), -e)
             if ex[0] == "Rational":
                 v, a = go(base)
                 if v != 0:
@@ -157,7 +157,7 @@ def lib_valid_terms(d, n, env):
         # functions
         v, a = go(dd[1])
         if t in ("Cot", "Csc"):
-            return invert(v, cap(a))
+            return invert(v, min(n, a))
         if v < 0:
             return 0, 0
         return val(dd), min(n, a)
@@ -242,7 +242,7 @@ class C31(Check):
     assumptions = ["the textbook power-series recurrences in pbt/seriesref.py (cross-checked against numerical "
                    "differentiation) are the reference", "principal branches; all constant terms are real",
                    "library exceptions (NotImplementedError ...) decline a case"]
-    tiers = {"quick": {"examples": 900, "shrink_calls": 40}, "thorough": {"examples": 40000, "shrink_calls": 80}}
+    tiers = {"quick": {"examples": 900, "shrink_calls": 40}, "thorough": {"examples": 24000, "shrink_calls": 80}}
 
     def setup_worker(self, tier):
         # start the driver with a generous time-out: under load the first answer of a freshly started
